@@ -6,6 +6,8 @@ values are dicts field -> value.  Workspace callees are inlined through their re
 expression.  This is the known-bits lattice with symbolic provenance, evaluated on expression
 trees (the functions analysed return one aggregate built by straight-line code); anything else
 evaluates to 'T' and the rule using it fails closed."""
+import re
+
 from .ir import IR, show, walk
 
 T = "T"
@@ -111,6 +113,9 @@ class BitEval:
         ty = ty.strip()
         if ty in WIDTH:
             return src_bits(name, WIDTH[ty])
+        m = re.match(r"^\[(\w+); (\d+)\]$", ty)
+        if m and m.group(1) in WIDTH:
+            return {i: src_bits("%s[%d]" % (name, i), WIDTH[m.group(1)]) for i in range(int(m.group(2)))}
         a = self.prog.adts.get(ty)
         if a is None or a["kind"] != "Struct":
             raise Unsupported("cannot build a symbolic value of type " + ty)
@@ -176,6 +181,8 @@ class BitEval:
         if isinstance(v, dict):
             return {k: self.apply_zero(x) for k, x in v.items()}
         return [0 if b in self.zero else b for b in v]
+
+    
 
     def eval(self, e, env, ir, depth=0):
         if depth > 40:
